@@ -508,5 +508,5 @@ def _mk(rule):
     return f
 
 
-for _r in ("C11.R1", "C11.R2", "C11.R3", "C11.R7"):
+for _r in ("C11.R1", "C11.R2", "C11.R3", "C11.R5", "C11.R6", "C11.R7", "C11.R8", "C11.R9"):
     lemmas.register(_r, _mk(_r))
